@@ -121,6 +121,31 @@ static void run_array(const std::vector<int> &elems, vx::Ctx &ctx) {
             ctx.fail("GroupBy(y) twice into one result, of " + desc, std::string(ok2 ? "" : "returned false; ") + "result " + got2 + ", partition " + expected);
         }
     }
+    {
+        // the same array reached through a pointer-to-value, and an array whose items are pointers to the same objects
+        V holder;
+        holder.SetPointerToValue(&arr);
+        V parr;
+        for (SizeT i = 0; i < arr.Size(); i++) {
+            parr.AddPointerToValue(arr.GetValue(i));
+        }
+        if (arr.Size() == 0) {
+            parr = ValueType::Array;
+        }
+        for (int which = 0; which < 2; which++) {
+            V          g3;
+            const bool ok3 = (which == 0 ? holder : parr).GroupBy(g3, "ky");
+            ctx.acc.count("evals");
+            const std::string got3 = ref::dump(g3, false);
+            if (!ok3 || got3 != expected) {
+                ctx.fail(std::string(which == 0 ? "GroupBy(y) through a pointer to the array, of " : "GroupBy(y) of an array of pointers to the objects, of ") + desc,
+                         std::string(ok3 ? "" : "returned false; ") + "result " + got3 + ", partition " + expected);
+            }
+        }
+        if (ref::dump(arr) != before) {
+            ctx.fail("GroupBy(y) through pointers of " + desc, "the source array was modified");
+        }
+    }
     ctx.acc.outcome(vx::hstr(expected));
     // the same partition through <loop group="y">
     {
